@@ -33,5 +33,6 @@ WExtOf    == [n \in 1..W.n |-> {W.ext[n][i] : i \in 1..Len(W.ext[n])}]
 WSize     == [n \in 1..W.n |-> W.size[n]]
 WMeta     == W.meta
 WVersions == W.versions
+WEdgeDepth == 0
 
 =============================================================================
